@@ -332,7 +332,7 @@ func c09Run(cs *c09One, replay bool) c09Outcome {
 		refs    = map[string]opResult{}
 		nops    int
 	)
-	res := simrt.Run(simrt.Config{Budget: 30_000_000, Chooser: ch, RecordSwitchPairs: 4096, TraceLog: os.Getenv("VERIF_DEBUG") == "2"}, func() {
+	res := simrt.Run(simrt.Config{Budget: 30_000_000, Chooser: ch, NsPerStep: simrt.SpeedFor(cs.Sched.Seed), RecordSwitchPairs: 4096, TraceLog: os.Getenv("VERIF_DEBUG") == "2"}, func() {
 		// ---- set-up, as a server does at start-up: ordinary happens-before to the client tasks
 		cc, err := sut.Compile(cs.Bundle)
 		if err != nil {
@@ -680,6 +680,11 @@ func C09(c *wk.Ctx) {
 			u.Counters["operations"] += int64(o.ops)
 			u.Counters["tasks"] += int64(o.res.Tasks)
 			u.Counters["switches"] += o.res.Switches
+			u.Counters["simulated_nanoseconds"] += o.res.SimNanos
+			u.Counters["clock_reads"] += o.res.ClockReads
+			u.Counters["timers_armed"] += o.res.TimersArmed
+			u.Counters["timers_fired"] += o.res.TimersFired
+			u.Counters["clock_jumps"] += o.res.ClockJumps
 			u.Counters["sched_"+cs.Sched.Strategy]++
 			if len(cs.Obligatory) > 0 {
 				u.Counters["runs_with_obligatory_directives"]++
